@@ -75,6 +75,18 @@ PROPS["C03"] = {
     "units": [U("TestVerif_C03_Observations", PROC, R(2500), R(20000, shards=16, timeout=1200))],
 }
 
+PROPS["C13"] = {
+    "rule": "adversarial op lists for the processor handlers (empty/huge payloads, zero / pre-1970 / post-2106 times, nil and short "
+            "byte fields, undecodable inbound VAAs, injections before the first guardian set and with arbitrary set index, empty "
+            "guardian sets, cleanup ticks with entry ages shifted by 1 s .. 8 days, store-then-reobserve) executed (a) by direct "
+            "handler calls under recover and (b) through the real Run loop's channels; non-trivial = store-then-reobserve, or an "
+            "injection before a set, or a cleanup tick with an entry older than 30 s",
+    "assumptions": ["inputs are restricted to what producers can emit: non-nil messages with arbitrary (also nil) fields",
+                    "the 30 s cleanup ticker of the Run loop is not awaited; cleanup is exercised by direct calls"],
+    "units": [U("TestVerif_C13_Direct", PROC, R(3000), R(20000, shards=16, timeout=1200)),
+              U("TestVerif_C13_RunLoop", PROC, R(300), R(3000, shards=16, timeout=1200))],
+}
+
 def setup():
     """MANIFEST.setup_cmd: create stubs and warm the build cache for every harness binary."""
     work = os.path.join(vdriver.WORKROOT, "setup-%d" % os.getpid())
